@@ -5,6 +5,7 @@
 From Coq Require Import Sorting.Sorted.
 From DV Require Import Base.Prelude Model.CacheM Proofs.CacheRing Proofs.CacheDict Proofs.CacheLru
   Proofs.CacheSpec.
+From DV Require Import Model.CacheSpecM.
 
 (* ------------------------------------------------------------------ runs with ghost state *)
 Section Ghost.
@@ -12,20 +13,8 @@ Section Ghost.
   Variable step : call -> St -> clk -> res (ret * St * clk).
   Variable gupd : call -> St -> ret -> St -> G -> G.
 
-  Definition gnext (it : item) (w : St * Z) (x : option ret * (St * Z)) (g : G) : G :=
-    match it, fst x with
-    | Call c _, Some rt => gupd c (fst w) rt (fst (snd x)) g
-    | _, _ => g
-    end.
-
-  Fixpoint grun (its : list item) (w : St * Z) (g : G) : res (G * (St * Z)) :=
-    match its with
-    | [] => Ok (g, w)
-    | it :: r => do x <- wstep step it w; grun r (snd x) (gnext it w x g)
-    end.
-
   (* the ghost run is the plain run plus bookkeeping *)
-  Lemma grun_wrun : forall its w g g' w', grun its w g = Ok (g', w') ->
+  Lemma grun_wrun : forall its w g g' w', grun step gupd its w g = Ok (g', w') ->
     exists rs, wrun step its w = Ok (rs, w').
   Proof.
     induction its as [|it its IH]; intros w g g' w' H; cbn in *.
@@ -36,17 +25,6 @@ Section Ghost.
 End Ghost.
 
 (* ------------------------------------------------------------------ LRUCache *)
-Definition has (c : lru) (x : Z) : bool :=
-  match dget (l_dict c) x with Some _ => true | None => false end.
-
-(* ghost: ideal map, event history (most recent first) *)
-Definition lghost := (imap * list event)%type.
-Definition lru_gupd (cl : call) (c : lru) (r : ret) (c' : lru) (g : lghost) : lghost :=
-  (ideal_upd cl (has c) (has c') (fst g), (cl, r) :: snd g).
-Definition lghost0 : lghost := (fun _ => None, []).
-
-Definition lru_grun := grun lru_step lru_gupd.
-
 Lemma has_R : forall c a zs x, R c a zs -> has c x = ahas a x.
 Proof.
   intros c a zs x HR. unfold has, ahas. rewrite (R_dict _ _ _ HR), (afind_R _ _ _ x HR).
@@ -148,10 +126,6 @@ Proof.
     + intros k v H. discriminate.
   - split; [split; cbn; constructor|]. split; [reflexivity|constructor].
 Qed.
-
-(* a reachable world of LRUCache(m) created at clock t0, with its ghost state *)
-Definition lru_reach (m t0 : Z) (its : list item) (g : lghost) (w : lru * Z) : Prop :=
-  exists c0, lru_init m = Ok c0 /\ lru_grun its (c0, t0) lghost0 = Ok (g, w).
 
 Lemma reach_inv : forall m t0 its g w, mono its -> lru_reach m t0 its g w -> LInv w g.
 Proof.
